@@ -165,10 +165,37 @@ def same_value(x, y):
     return abs(fx - fy) <= 1e-12 * max(1.0, abs(fx), abs(fy))
 
 
+_PRELUDE = [False]
+
+
+def prelude():
+    """Once per process: another solver instance is customised IN PLACE through its public attributes (operator table
+    emptied of `not`, `pow` and the functions, steps reversed) and thrown away.  Every solver built afterwards with the
+    default arguments must still carry the documented default table and step order."""
+    if _PRELUDE[0]:
+        return
+    _PRELUDE[0] = True
+    from scinumtools.solver import ExpressionSolver, AtomBase
+    try:
+        es = ExpressionSolver(AtomBase)
+        for k in ("not", "pow", "sin", "sqrt", "and"):
+            es.operators.pop(k, None)
+        es.steps.reverse()
+        for st in es.steps:
+            st["operators"][:] = st["operators"][:1]
+        try:
+            es.solve("1+2")
+        except Exception:
+            pass
+    except Exception:
+        pass
+
+
 def solve_real(text, solver=None):
     """Run the real solver on a fresh instance (or the given one). -> (kind, payload)"""
     from scinumtools.solver import ExpressionSolver, AtomBase
     from scinumtools.solver.operators import OperatorBase
+    prelude()
     es = solver or ExpressionSolver(AtomBase)
     try:
         r = es.solve(text)
